@@ -28,7 +28,9 @@ ASSUMPTIONS = ['exact extrema of float-coefficient Beziers via rational root iso
                'arc boxes are compared with the extrema of the curve the Arc object itself represents (stored centre/angles); whether that is the right ellipse is C04']
 
 ROTS = [0, 90, 180, 270, 37, 211, 45]
-SCALES = [1.0, 1e-3, 1e3]
+SCALES = [1.0, 1e-3, 1e3, 1e-9, 1e9]
+# (scale, shift): ordinary and small shapes a million units from the origin
+FAR = [(1.0, 1.0e6 + 1.0e6j), (1e-4, 1.0e6 + 1.0e6j)]
 
 
 def bezier_true_box(pts):
@@ -104,11 +106,14 @@ def check_box(seg, truebox, tol, case, acc, sig):
             return
 
 
-def check_bezier(name, rot, scale, acc):
-    seg = AB.make(name, scale, rot=rot)
+def check_bezier(name, rot, scale, acc, shift=0j):
+    seg = AB.make(name, scale, rot=rot, shift=shift)
     pts = list(seg.bpoints())
     tb = bezier_true_box(pts)
     size = max(abs(complex(p)) for p in pts) + 1e-300
+    if shift:
+        # far from the origin the tolerance is relative to the EXTENT of the curve, plus the spacing of floats out there
+        size = max(abs(complex(p) - complex(pts[0])) for p in pts) + 1e-300
     kind = type(seg).__name__[0]
     degenerate = 'regular'
     if kind == 'C':
@@ -121,9 +126,11 @@ def check_bezier(name, rot, scale, acc):
                 degenerate = 'denom_tiny'
     interior = tb[0][2] or tb[1][2]
     case = {'what': 'bezier', 'shape': name, 'rot': rot, 'scale': scale}
+    if shift:
+        case['shift'] = core.jz(shift)
     acc.case(case, cls='%s/%s/%s' % (kind, degenerate, 'interior_extremum' if interior else 'endpoints_only'),
              nontrivial=interior)
-    check_box(seg, tb, 1e-9 * size, case, acc, {'kind': kind, 'degenerate': degenerate})
+    check_box(seg, tb, 1e-9 * size + 64 * 2.0 ** -52 * abs(shift), case, acc, dict({'kind': kind, 'degenerate': degenerate}, **({'far_from_origin': True} if shift else {})))
     if rot in (0, 37) and scale == 1.0:
         check_pieces(seg, case, acc)
 
@@ -347,6 +354,9 @@ def run_shard(desc, tier, seed):
         for rot in ROTS:
             for sc in SCALES:
                 check_bezier(desc['shape'], rot, sc, acc)
+        for sc, sh in FAR:
+            for rot in (0, 37):
+                check_bezier(desc['shape'], rot, sc, acc, shift=sh)
     elif desc['what'] == 'elevated':
         for i, x in enumerate(elevated_family(tier)):
             if i % 4 != desc['k']:
@@ -427,7 +437,7 @@ def replay(case):
     elif w == 'bezier' and 'piece' in case:
         check_pieces(AB.make(case['shape'], case['scale'], rot=case['rot']), {k: v for k, v in case.items() if k != 'piece'}, acc, only=case['piece'])
     elif w == 'bezier':
-        check_bezier(case['shape'], case['rot'], case['scale'], acc)
+        check_bezier(case['shape'], case['rot'], case['scale'], acc, shift=complex(*case.get('shift', [0, 0])))
     elif w == 'elevated':
         check_elevated(tuple(case['x']), tuple(case['y']), acc)
     elif w == 'arc':
